@@ -5,11 +5,13 @@ CONSTANTS
   NWChoices = {2}
   ModeChoices = {TRUE, FALSE}
   FaultChoices = {"none"}
-  PoolChoices = {1, 2}
+  PoolChoices = {1}
   KindChoices = {"async", "blocking"}
   BodyPanics = FALSE
   BodyUsesPool = TRUE
   JoinerOnPool = FALSE
+  ReceiverDrops = TRUE
+  SkipIfReceiverGone = FALSE
 SPECIFICATION FairSpec
-INVARIANTS TypeOK ExactlyOnce ResultDelivery JoinedFirst SeqNoOverlap SeqAllFinished ConcNothingLeft JoinAfterExit
+INVARIANTS TypeOK ExactlyOnce ResultDelivery JoinedFirst SeqNoOverlap SeqAllFinished AllStartedAtJoin ConcNothingLeft JoinAfterExit
 PROPERTIES EventuallyStarted EventuallyPooledStarted JoinReturns ReceiverResolves
